@@ -285,6 +285,14 @@ func (b *Built) Fill() {
 
 // Logical reads every coordinate of t with At, row-major.
 func Logical(t *tensor.Dense) ([]interface{}, error) {
+	if CheckInvariants {
+		if msg := MetaInvariant(t); msg != "" {
+			return nil, fmt.Errorf("metadata invariant violated: %s", msg)
+		}
+		if msg := OrderInvariant(t); msg != "" {
+			return nil, fmt.Errorf("metadata invariant violated: %s", msg)
+		}
+	}
 	shape := t.Shape()
 	n := ref.Prod(shape)
 	out := make([]interface{}, 0, n)
@@ -476,3 +484,89 @@ func (b *Built) APCells() (cells []int, ok bool) {
 	})
 	return cells, ok
 }
+
+// MetaInvariant: size = product of the shape, and shape and strides address only distinct in-bounds storage positions
+// (the metadata invariant of C13, evaluated on every tensor any check reads through Logical).
+func MetaInvariant(t *tensor.Dense) string {
+	shape := t.Shape()
+	if t.Size() != ref.Prod(shape) {
+		return fmt.Sprintf("Size()=%d but shape %v", t.Size(), shape)
+	}
+	m := tensor.VerifMetaOf(t)
+	if m.ElSize == 0 {
+		return ""
+	}
+	win := m.RawLen / m.ElSize
+	strides := m.Strides
+	if len(shape) == 0 || ref.Prod(shape) <= 1 {
+		if win < 1 && ref.Prod(shape) == 1 {
+			return "one element but empty storage window"
+		}
+		return ""
+	}
+	if len(strides) != len(shape) && !(len(strides) == 1 && tensor.Shape(shape).IsVector()) {
+		return fmt.Sprintf("%d strides for shape %v", len(strides), shape)
+	}
+	seen := map[int]bool{}
+	bad := ""
+	ref.ForCoords(shape, func(c []int) {
+		if bad != "" {
+			return
+		}
+		at := 0
+		for i := range c {
+			st := strides[0]
+			if len(strides) == len(shape) {
+				st = strides[i]
+			}
+			at += c[i] * st
+		}
+		if at < 0 || at >= win {
+			bad = fmt.Sprintf("coordinate %v maps to offset %d outside the storage window of %d elements (shape %v strides %v)", c, at, win, shape, strides)
+			return
+		}
+		if seen[at] {
+			bad = fmt.Sprintf("two coordinates map to offset %d (shape %v strides %v)", at, shape, strides)
+		}
+		seen[at] = true
+	})
+	return bad
+}
+
+// OrderInvariant: the data-order flags agree with the strides. A tensor that is not marked transposed and whose
+// strides are exactly the canonical row-major (column-major) strides of its shape - and not also the other ones - must
+// report IsRowMajor (IsColMajor): kernels choose their traversal from the flag alone.
+func OrderInvariant(t *tensor.Dense) string {
+	shape := t.Shape()
+	m := tensor.VerifMetaOf(t)
+	// judged only when no transpose is pending: a lazily transposed tensor legitimately carries permuted strides
+	// under its original order flag
+	// ... and only for tensors that own their storage and are flagged contiguous (views go through iterators)
+	if len(shape) < 2 || len(m.Strides) != len(shape) || !m.OldZero || m.ViewOf != 0 || !m.O.IsContiguous() {
+		return ""
+	}
+	if m.O.IsTransposed() {
+		return "" // a transposed flag with nothing pending (left by Reshape after T, by UT after a no-op SafeT, ...) is not judged
+	}
+	// the stride of a length-one axis addresses nothing: compare on the other axes only
+	eff := func(want []int) bool {
+		for i, n := range shape {
+			if n != 1 && m.Strides[i] != want[i] {
+				return false
+			}
+		}
+		return true
+	}
+	rm := eff(tensor.Shape(shape).CalcStrides())
+	cm := eff(tensor.Shape(shape).CalcStridesColMajor())
+	switch {
+	case rm && !cm && m.O.IsColMajor():
+		return fmt.Sprintf("row-major strides %v for shape %v but the tensor is flagged column-major", m.Strides, shape)
+	case cm && !rm && !m.O.IsColMajor():
+		return fmt.Sprintf("column-major strides %v for shape %v but the tensor is flagged row-major", m.Strides, shape)
+	}
+	return ""
+}
+
+// CheckInvariants makes Logical evaluate MetaInvariant and OrderInvariant on every tensor it reads.
+var CheckInvariants = true
